@@ -84,3 +84,32 @@ package gobl
 //
 // verifiedBy: every signature of the envelope verifies under the key and covers the envelope's header
 //@ pred verifiedBy(e *Envelope, key *dsig.PublicKey) bool = e != nil && len(e.Signatures) > 0 && (forall i int :: 0 <= i && i < len(e.Signatures) ==> dsig.jwsValid(e.Signatures[i], key) && dsig.payloadOK(e.Signatures[i]) && head.contains(e.Head, dsig.signedHeader(e.Signatures[i])))
+//
+// ---- C16: correcting or replicating an envelope works on a copy
+//
+// The document handed to the correction (replication) is a fresh clone, never the source's
+// own document, and the new envelope is built from that clone.
+//@ func Envelop(doc) (r, err)
+//@   trusted builds a new envelope around the document (NewEnvelope + Insert: identifiers, calculation)
+//@   modifies *
+//@   ensures err == nil ==> r != nil && fresh(r)
+//@   ensures err != nil ==> r == nil
+//
+//@ func (e *Envelope) Correct(opts) (r, err)
+//@   requires e != nil && e.Document != nil
+//@   modifies *
+//@   assume-frame head.WithHead |
+//@   at-call Object).Clone assert [source] $arg0 == old(e.Document)
+//@   at-call Object).Correct assert [clone] fresh($arg0) && $arg0 != old(e.Document)
+//@   at-call Envelop assert [built] typeis($arg0, *schema.Object) && unboxed($arg0, *schema.Object) == nd && fresh(nd)
+//@   ensures [new] err == nil ==> r != nil && fresh(r) && r != e
+//@   ensures [refused] err != nil ==> r == nil
+//
+//@ func (e *Envelope) Replicate() (r, err)
+//@   requires e != nil && e.Document != nil
+//@   modifies *
+//@   at-call Object).Clone assert [source] $arg0 == old(e.Document)
+//@   at-call Object).Replicate assert [clone] fresh($arg0) && $arg0 != old(e.Document)
+//@   at-call Envelop assert [built] typeis($arg0, *schema.Object) && unboxed($arg0, *schema.Object) == nd && fresh(nd)
+//@   ensures [new] err == nil ==> r != nil && fresh(r) && r != e
+//@   ensures [refused] err != nil ==> r == nil
